@@ -50,24 +50,31 @@ def purity():
 SITE = re.compile(r"\.unwrap\(\)|\.expect\(|unreachable!|panic!|\bassert!|debug_assert|\[[^\[\]\n]*\]\s*(?!\s*=>)|swap_remove|\.remove\(|split_at|copy_from_slice")
 
 
+PANICKY = (r"\.unwrap\(\)|\.expect\(|unreachable!|panic!|\bassert!|\bassert_eq!|\bassert_ne!|debug_assert|todo!|unimplemented!|swap_remove|\.remove\(|split_at\(|"
+           r"\.insert\(\s*[\w.]+\s*,|\.drain\(|split_off\(|\.swap\(|replace_range\(|step_by\(|\.chunks\(|\.windows\(|from_str_radix\(|borrow_mut\(|\.borrow\(\)|"
+           r"\.lock\(\)|copy_from_slice|clone_from_slice|\.truncate\(|_unchecked|process::exit|process::abort|\.write\(\)|\.read\(\)")
+
+
 def panic_sites():
     """normalized (file, code) pairs of potential panic sites in the library (outside tests)"""
     sites = []
     for p in rust_sources():
         rel = os.path.relpath(p, L.REPO)
-        if rel.endswith("display.rs") or rel in ("src/lib.rs", "src/verif.rs", "src/bin/evalexpr.rs"):
+        if rel in ("src/lib.rs", "src/verif.rs", "src/bin/evalexpr.rs"):
             continue
         text = strip_rust(open(p).read())
         for line in text.splitlines():
             s = line.strip()
             if not s or s.startswith("#[") or s.startswith("use ") or s.startswith("#!["):
                 continue
-            if re.search(r"\.unwrap\(\)|\.expect\(|unreachable!|panic!|\bassert!|debug_assert|swap_remove|\.remove\(|split_at\(", s) or re.search(r"\w\[[^\]\n]+\]", s) and not re.search(r"vec!\[|#\[|\[\s*\]|: \[|&\[|<\[", s):
+            if re.search(PANICKY, s) or re.search(r"\w\[[^\]\n]+\]", s) and not re.search(r"vec!\[|#\[|\[\s*\]|: \[|&\[|<\[", s):
                 sites.append([rel, re.sub(r"\s+", " ", s)])
     return sites
 
 
-ARITH = re.compile(r"(?<![=!<>&|+\-*/%^])\s(\+|-|\*|/|%|<<|>>)=?\s(?!=)|\bas\s+(u8|u16|u32|u64|u128|usize|i8|i16|i32|i64|i128|isize|f32|f64|Self::Float|Self::Int)\b|\.pow\(|\.abs\(\)")
+ARITH = re.compile(r"(?<![=!<>&|+\-*/%^])\s(\+|-|\*|/|%|<<|>>)=?\s(?!=)|\bas\s+(u8|u16|u32|u64|u128|usize|i8|i16|i32|i64|i128|isize|f32|f64|Self::Float|Self::Int)\b|\.pow\(|\.abs\(\)|"
+                   r"wrapping_|saturating_|overflowing_|unchecked_|\b(Add|Sub|Mul|Div|Rem|Neg|Shl|Shr)::(add|sub|mul|div|rem|neg|shl|shr)\b|\.(add|sub|mul|div|rem|neg|shl|shr)\(|"
+                   r"(^|[(,=\[{]|return|=>)\s*-\s*[A-Za-z_(*]|\.sum\(|\.product\(|\.try_into\(|::try_from\(")
 
 
 def arithmetic_sites():
